@@ -16,6 +16,7 @@
  R5 carrier list : carriers_to_spectral_information builds every per-channel list from the same dict in one iteration
                    order, each from its own attribute.
  R6 band test    : is_in_band keeps a channel iff its slot edges f -/+ sw/2 lie within [f_min, f_max] (non strict).
+ Rm memo          : every memoisation construct in the functions behind this property is keyed by everything it reads.
 """
 import ast
 
@@ -376,5 +377,10 @@ def r6_in_band(ctx):
     ctx.need('R6.in-band', 2)
 
 
+
+from ..memo import rule_for as _memo_rule
+
+RULES_MEMO = ('Rm.memo', _memo_rule('C07', 'the band of another amplifier set would be used'))
+
 RULES = [('R1.construction', r1_construction), ('R2.mux', r2_mux), ('R3.filter', r3_filter), ('R4.multiband', r4_multiband),
-         ('R5.carriers', r5_carriers), ('R6.in-band', r6_in_band)]
+         ('R5.carriers', r5_carriers), ('R6.in-band', r6_in_band), RULES_MEMO]
